@@ -49,7 +49,17 @@ class Ev1b(Ev1):
     pass
 
 
-EVS = [Ev0, Ev1, Ev1b]
+def _lookalike(cls: type) -> type:
+    """Another class with the very same module and qualified name (what a class factory
+    called twice, or a reloaded module, produces): a *different* event class."""
+
+    def __init__(self: Any, n: int) -> None:
+        self.n = n
+
+    return type(cls.__name__, (Event,), {"__init__": __init__, "__module__": cls.__module__, "__qualname__": cls.__qualname__})
+
+
+EVS = [Ev0, Ev1, Ev1b, _lookalike(Ev0), _lookalike(Ev1)]
 
 
 def make_classes(spec: list) -> list:
@@ -892,7 +902,7 @@ def gen(rng: random.Random, tier: str, prop: str) -> dict:
                 acts.append(["d" if rng.random() < 0.9 else "dr", list(rng.choice(hot if rng.random() < 0.85 else chans))])
             elif r < 0.95:
                 c = rng.choice(chans)
-                acts.append(["dbad", list(c), rng.choice((0, 1, 2))])
+                acts.append(["dbad", list(c), rng.choice((0, 1, 2, 3, 4))])
             elif r < 0.97:
                 acts.append(["jump", rng.choice((-3600.0, -1.0, 5.0, 86400.0))])
             else:
